@@ -669,3 +669,136 @@ def compose_rule(P, E, H):
         if not (saw_emit and saw_sub):
             r.violate(("operators::start_with::StartWith", "prefix or source missing"), "start_with must emit its prefix and then subscribe the source", body=sw)
     return r
+
+
+# ---------------------------------------------------------------------------- gated combinators (C03)
+class GateRef:
+    init = None
+    extra = ()
+
+    def step(self, st, ev):
+        """-> (trace, state', done)"""
+        raise NotImplementedError
+
+
+class GTakeUntil(GateRef):
+    init = ()
+
+    def step(self, st, ev):
+        return {"S.N": ((("emit", "item"),), st, False), "S.E": ((("error",),), st, True), "S.C": ((("complete",),), st, True),
+                "T.N": ((("complete",),), st, True), "T.E": ((("error",),), st, True), "T.C": ((), st, False)}[ev]
+
+
+class GSkipUntil(GateRef):
+    init = False
+
+    def step(self, st, ev):
+        if ev == "S.N":
+            return ((("emit", "item"),) if st else ()), st, False
+        if ev == "T.N":
+            return (), True, False
+        return {"S.E": ((("error",),), st, True), "S.C": ((("complete",),), st, True),
+                "T.E": ((("error",),), st, True), "T.C": ((), st, False)}[ev]
+
+
+class GSample(GateRef):
+    init = False                      # holds an unsampled item?
+    extra = ("remember",)
+
+    def step(self, st, ev):
+        if ev == "S.N":
+            return (("remember", "item"),), True, False
+        if ev == "T.N":
+            return ((("emit", "stored"),) if st else ()), False, False
+        return {"S.E": ((("error",),), st, True), "S.C": ((("complete",),), st, True),
+                "T.E": ((("error",),), st, True), "T.C": ((), st, False)}[ev]
+
+
+GATES = {
+    "operators::take_until::TakeUntil": ("take_until", GTakeUntil),
+    "operators::skip_until::SkipUntil": ("skip_until", GSkipUntil),
+    "operators::sample::Sample": ("sample", GSample),
+}
+GATE_DEPTH = 4
+
+
+def gates_rule(P, E, H):
+    r = RuleResult("GATE", "take_until / skip_until / sample: for every interleaving of source and trigger events up to %d events, "
+                           "the six handlers' extracted transitions emit and terminate like the operator's reference machine" % GATE_DEPTH)
+    for root, (name, refcls) in sorted(GATES.items()):
+        ts = [t for t in H.triples if t["root"] == root]
+        trig = [t for t in ts if H.is_trigger_triple(t)]
+        src = [t for t in ts if not H.is_trigger_triple(t)]
+        if len(trig) != 1 or len(src) != 1:
+            r.error("GATE: %s: expected one source and one trigger observer, found %d/%d" % (name, len(src), len(trig)))
+            continue
+        try:
+            S = {}
+            for tag, t in (("S", src[0]), ("T", trig[0])):
+                for role, kind in (("N", "item"), ("E", "error"), ("C", "none")):
+                    hb = t["handlers"].get(role)
+                    if hb is None:
+                        raise Undecided("%s.%s handler missing" % (tag, role))
+                    S["%s.%s" % (tag, role)] = Summary(P, E, hb, item_param=3, item_kind=("item" if tag == "S" else "tick") if role == "N" else kind)
+            n = _explore_gate(r, S, refcls(), root, name)
+            r.instance((root, "gating"), True, "%s: %d event steps explored to depth %d; paths per handler %s"
+                       % (name, n, GATE_DEPTH, {k: len(v.paths) for k, v in sorted(S.items())}))
+        except Undecided as e:
+            r.error("GATE: %s not decidable in the abstraction: %s" % (name, e))
+    return r
+
+
+def _explore_gate(r, S, ref, root, name):
+    cells = {}
+    for Sm in S.values():
+        for g, k in Sm.cellinfo.items():
+            if k and k[0] in ("int", "flag", "optcell"):
+                pre = {"int": "", "flag": "f:", "optcell": "o:"}[k[0]]
+                cells[pre + Sm._sym(g)] = k[1]
+    start = (tuple(sorted(cells.items())), ref.init)
+    seen = {start}
+    frontier = [(start, ())]
+    reported = set()
+    steps = 0
+    for depth in range(GATE_DEPTH):
+        nxt = []
+        for ((ist, rst), hist) in frontier:
+            state = dict(ist)
+            for ev in ("S.N", "S.E", "S.C", "T.N", "T.E", "T.C"):
+                Sm = S[ev]
+                sigma = dict(state)
+                for s_ in Sm.symbols():
+                    if s_ not in sigma:
+                        raise Undecided("%s handler consults `%s`, which the abstraction does not model" % (ev, s_))
+                outs = Sm.step(sigma, ALPHABET)
+                if not outs:
+                    raise Undecided("no feasible path for %s in state %s" % (ev, state))
+                rtrace, rst2, rdone = ref.step(rst, ev)
+                for (tr, nx), (p, newcells) in outs.items():
+                    steps += 1
+                    ntr = _norm_trace(tr, ref.extra)
+                    if ntr != tuple(rtrace):
+                        kind = "%s after %s" % (ev, "/".join(hist[-2:]) or "start")
+                        if kind not in reported:
+                            reported.add(kind)
+                            r.violate((root, "gating", kind),
+                                      "%s: on %s after [%s] the operator does %s; its definition says %s (extracted transition: guard %s)"
+                                      % (name, {"S.N": "a source item", "S.E": "a source error", "S.C": "source completion", "T.N": "a trigger item",
+                                                "T.E": "a trigger error", "T.C": "trigger completion"}[ev], ", ".join(hist) or "nothing",
+                                         _fmt(ntr), _fmt(rtrace), " && ".join(_show_b(x) for x in p.pc) or "true"), body=Sm.b)
+                        continue
+                    if rdone:
+                        continue
+                    ns = dict(state)
+                    for g, v in newcells.items():
+                        k = Sm.cellinfo.get(g)
+                        pre = {"int": "", "flag": "f:", "optcell": "o:"}.get(k[0] if k else "", "")
+                        ns[pre + Sm._sym(g)] = v
+                    key = (tuple(sorted(ns.items())), rst2)
+                    if key not in seen:
+                        seen.add(key)
+                        nxt.append((key, hist + (ev,)))
+        frontier = nxt
+        if not frontier:
+            break
+    return steps
